@@ -986,7 +986,16 @@ func bindFuncParams(fn *ssa.Function) func() {
 				if _, isSig := o.Params[i].Type().Underlying().(*types.Signature); !isSig {
 					continue
 				}
-				if lit := resolveFuncValue(a, 0); lit != nil && lit.Parent() != nil {
+				lit := resolveFuncValue(a, 0)
+				if lit != nil && lit.Parent() == nil {
+					// a method value (c.SeekFirst): the parameter stands for that method (its receiver is bound)
+					if m, rv := funcAndReceiver(a); m != nil && rv != nil {
+						lit = m
+					} else {
+						lit = nil
+					}
+				}
+				if lit != nil {
 					if _, dup := funcParamBinding[o.Params[i]]; !dup {
 						funcParamBinding[o.Params[i]] = lit
 						bound = append(bound, o.Params[i])
